@@ -25,6 +25,8 @@ def main():
     filt = a[a.index("--filter") + 1] if "--filter" in a else ""
     needs = a[a.index("--needs") + 1] if "--needs" in a else ""
     fflag = ("--features " + feats) if feats else ""
+    demo_env = json.loads(a[a.index("--demo-env") + 1]) if "--demo-env" in a else {}
+    rel = "--release" if "--release" in a else ""
     env = dict(os.environ, CARGO_TARGET_DIR=os.path.join(WT, "target"), CARGO_NET_OFFLINE="true")
     log = {}
     rc, out = sh("git -C /repo worktree add -q --detach %s HEAD" % WT, "/")
@@ -44,12 +46,15 @@ def main():
         kind, target = mode.split(":", 1)
         if kind == "test":
             shutil.copy(demo, os.path.join(WT, "tests", target + ".rs"))
-            demo_cmd = "cargo test --offline %s --test %s %s" % (fflag, target, filt)
+            demo_cmd = "cargo test --offline %s %s --test %s %s" % (rel, fflag, target, filt)
         else:
             with open(os.path.join(WT, target), "a") as fh:
                 fh.write("\n" + open(demo).read())
             demo_cmd = "cargo test --offline %s --lib %s" % (fflag, filt)
-        rc1, out1 = sh(demo_cmd + " 2>&1 | tail -25", WT, env)
+        denv = dict(env, **demo_env)
+        if demo_env:
+            denv["CARGO_TARGET_DIR"] = os.path.join(WT, "target-demo")
+        rc1, out1 = sh(demo_cmd + " 2>&1 | tail -25", WT, denv)
         fails_with = "FAILED" in out1 or "panicked" in out1 or "error" in out1.lower() and "test result: ok" not in out1
         log["demo_with_patch"] = out1.strip().splitlines()[-12:]
         print("demo with patch:", "FAIL (as required)" if fails_with else "PASS (mutant not demonstrated)")
@@ -58,7 +63,7 @@ def main():
         rc, cur = sh("git diff HEAD --stat -- src", WT)
         if kind == "append":
             pass
-        rc2, out2 = sh(demo_cmd + " 2>&1 | tail -12", WT, env)
+        rc2, out2 = sh(demo_cmd + " 2>&1 | tail -12", WT, denv)
         passes_without = "test result: ok" in out2 and "FAILED" not in out2
         log["demo_without_patch"] = out2.strip().splitlines()[-6:]
         print("demo without patch:", "PASS (as required)" if passes_without else "FAIL")
@@ -70,7 +75,7 @@ def main():
             shutil.copy(demo, os.path.join(d, "demo.rs"))
             meta = {
                 "id": sid, "property": prop, "needs_to_manifest": needs,
-                "demo_install": mode, "features": feats,
+                "demo_install": mode, "features": feats, "demo_env": demo_env,
                 "confirmed": {"suite_with_patch": "pass", "demo_with_patch": "fail", "demo_without_patch": "pass"},
                 "ran": ["cargo test --offline %s (with patch)" % fflag, demo_cmd + " (with patch)", demo_cmd + " (without patch)"],
                 "base_commit": subprocess.check_output(["git", "-C", "/repo", "rev-parse", "HEAD"], text=True).strip(),
